@@ -17,6 +17,7 @@ warnings.filterwarnings("ignore")
 ID = "C13"
 TECHNIQUE = "property-based testing of a commuting diagram: the same generated annotation / def header is interpreted through the visitor (source), a string annotation, `from __future__ import annotations`, type_from_runtime(object) and type_from_runtime(string); all routes must yield equal Values / signatures, and a call must be judged the same in the defining and in an importing module"
 RULE = (
+    "attribute declarations: for every annotation T of the depth-1 list, a class with attributes declared T, ClassVar[T], Final[T], typing.ClassVar[T], typing_extensions.Final[T] is read through an instance in four routes (class in the checked module, annotations quoted, class imported, class imported from a module with `from __future__ import annotations`); every value must equal the plain T of the checked module. "
     "annotation expressions E from the typing grammar (classes, Optional/Union/|, generics old and new style, "
     "tuple forms, Literal, type[], Callable[[...], R] / Callable[..., R], Annotated, NewType, TypedDict, Protocol, "
     "TypeVars; depth <= 3): the Value of parameter p in `def f(p: E)` seen by the visitor must equal the Value "
@@ -343,6 +344,84 @@ def judge_import(items, col=None):
         sut.forget_module(mod)
 
 
+# ----------------------------------------------------------------- attribute declarations (Final / ClassVar)
+
+QUALS = [("plain", "{0}"), ("classvar", "ClassVar[{0}]"), ("final", "Final[{0}]"), ("typing-classvar", "typing.ClassVar[{0}]"),
+         ("te-final", "typing_extensions.Final[{0}]"), ("annotated-final", "Annotated[Final[{0}], 1]")]
+QUALS_CHECKED = QUALS[:5]
+
+
+def class_lines(i, t, quote):
+    q = (lambda a: repr(a)) if quote else (lambda a: a)
+    lines = [f"class K{i}:"]
+    for qname, tmpl in QUALS_CHECKED:
+        lines.append(f"    {qname.replace('-', '_')}: {q(tmpl.format(t))}")
+    return lines
+
+
+def judge_classvars(types, col=None):
+    """The declared type of an attribute annotated T, ClassVar[T], Final[T] (plain and module-qualified), read
+    through an instance: class in the checked module / annotations as strings / class imported from a module /
+    class imported from a module that uses `from __future__ import annotations`.  All must equal the plain T."""
+    hdr = HEADER.rstrip("\n").split("\n")
+    attrs = [q.replace("-", "_") for q, _ in QUALS_CHECKED]
+    lib_a, lib_b, here, here_s = list(hdr), ["from __future__ import annotations"] + hdr, list(hdr), list(hdr)
+    for i, t in enumerate(types):
+        lib_a += class_lines(i, t, False)
+        lib_b += class_lines(i, t, False)
+        here += class_lines(i, t, False)
+        here_s += class_lines(i, t, True)
+    uses = []
+    for i, t in enumerate(types):
+        for a in attrs:
+            uses += [f"def u{i}_{a}(k: K{i}) -> None:", f"    use(k.{a})"]
+    names = {f"u{i}_{a}" for i in range(len(types)) for a in attrs}
+    mods = []
+    routes = {}
+    internals = {}
+    try:
+        for tag, lib in (("imported", lib_a), ("imported-future", lib_b)):
+            name = f"pvmod_c13_{tag.replace('-', '_')}"
+            src = "\n".join(lib) + "\n"
+            mods.append(sut.make_named_module(src, name))
+            imp = hdr + [f"from {name} import " + ", ".join(f"K{i}" for i in range(len(types)))] + uses
+            routes[tag], internals[tag] = param_values("\n".join(imp) + "\n", names)
+        routes["source"], internals["source"] = param_values("\n".join(here + uses) + "\n", names)
+        routes["string"], internals["string"] = param_values("\n".join(here_s + uses) + "\n", names)
+    except SyntaxError:
+        return []
+    finally:
+        for m in mods:
+            sut.forget_module(m)
+    fails = []
+    for i, t in enumerate(types):
+        if col is not None:
+            col.case(nontrivial_id=("classvars", t), label=["route:classvars", f"outer:{outer_ctor(t)}"])
+        ref = routes["source"].get(f"u{i}_plain")
+        if ref is None:
+            continue
+        done = False
+        for tag in ("source", "string", "imported", "imported-future"):
+            for a in attrs:
+                fn = f"u{i}_{a}"
+                if fn in internals[tag]:
+                    fails.append((f"classvar-route-raises|{tag}|{a}", f"`{a}: {t}` through the {tag} route: {internals[tag][fn]}", t))
+                    done = True
+                    break
+                v = routes[tag].get(fn)
+                if v is None:
+                    continue
+                if not same_value(ref, v):
+                    fails.append((f"classvar-routes-differ|{tag}|{a}|{type(v).__name__}",
+                                  f"attribute declared `{a}: {dict(QUALS)[a.replace('_', '-')].format(t)}` read through the {tag} route is {v}, "
+                                  f"but the plain `{t}` attribute in the checked module is {ref}", t))
+                    done = True
+                    break
+            if done:
+                break
+    return fails
+
+
 # ----------------------------------------------------------------- shards
 
 
@@ -352,6 +431,7 @@ def shards(tier, seed):
     out += [{"mode": "annotations", "index": i, "modules": 25 if tier == "quick" else 400} for i in range(5)]
     out += [{"mode": "headers", "index": i, "modules": 20 if tier == "quick" else 400} for i in range(3)]
     out += [{"mode": "import", "index": i, "modules": 12 if tier == "quick" else 300} for i in range(2)]
+    out += [{"mode": "classvars", "index": i, "of": 2} for i in range(2)]
     return out
 
 
@@ -370,6 +450,18 @@ def run_shard(spec):
                 break
         col.extra["exhaustive"] = not col.budget_hit
         col.extra["exhaustive_bounds"] = ["all annotation expressions of constructor depth <= 2 from pv/universe.py plus the EXTRA_TYPES list"]
+        return col.result()
+    if mode == "classvars":
+        types = [t for t in universe.types_depth1() + EXTRA_TYPES if universe.valid_type_src(t)
+                 and not re.search(r"Unpack|Never|NoReturn|Required|ClassVar|Final", t)]
+        if spec.get("tier") != "quick":
+            types += [t for t in universe.types_depth2() if universe.valid_type_src(t)][::7]
+        mine = types[spec["index"]::spec["of"]]
+        for k in range(0, len(mine), 40):
+            for key, what, t in judge_classvars(mine[k:k + 40], col):
+                col.fail(key, what, {"classvar_type": t})
+            if col.out_of_time():
+                break
         return col.result()
     if mode == "annotations":
         def make():
@@ -407,7 +499,9 @@ def run_shard(spec):
 
 
 def replay_all(case):
-    if "type" in case:
+    if "classvar_type" in case:
+        fails = judge_classvars([case["classvar_type"]])
+    elif "type" in case:
         fails = judge_annotations([case["type"]])
     elif "header" in case:
         h = case["header"]
